@@ -48,7 +48,7 @@ var noEffectPrefixes = []string{
 	"github.com/sirupsen/logrus.Warn", "github.com/sirupsen/logrus.Info", "github.com/sirupsen/logrus.Debug", "github.com/sirupsen/logrus.Print",
 	"github.com/sirupsen/logrus.Error", "github.com/sirupsen/logrus.Trace",
 	"log.Print", "fmt.Sprint", "fmt.Errorf", "fmt.Print", "fmt.Fprint", "errors.New", "strings.", "strconv.", "bytes.Equal", "bytes.Compare", "bytes.Index", "bytes.Contains", "bytes.HasPrefix", "bytes.HasSuffix",
-	"math.", "unicode.", "unicode/utf8.", "time.", "os.Getenv", "runtime.", "sort.SearchInts", "slices.Contains", "slices.Index", "(*sync.Mutex).", "(*sync.RWMutex).",
+	"math.", "sync/atomic.", "unicode.", "unicode/utf8.", "time.", "os.Getenv", "runtime.", "sort.SearchInts", "slices.Contains", "slices.Index", "(*sync.Mutex).", "(*sync.RWMutex).",
 	"(*sync.WaitGroup).Wait", "path.", "path/filepath.", "regexp.MustCompile", "(*regexp.Regexp).Match", "(*regexp.Regexp).Find", "hash/crc32.", "crypto/md5.",
 	"(*github.com/schollz/progressbar/v3.ProgressBar).", "github.com/schollz/progressbar/v3.",
 }
@@ -116,7 +116,7 @@ func (v *Verifier) newExec(fn *ssa.Function, name string, ctr *FuncContract, mod
 	fx := &fnExec{v: v, fn: fn, name: name, ctr: ctr, mode: mode, declared: map[string]bool{}, vals: map[ssa.Value]SV{}, heapSorts: map[string]string{},
 		oblCount: map[string]int{}, sharedMut: map[ssa.Value]bool{}, strConsts: map[string]Term{}, fltConsts: map[string]Term{}, needs: map[string]bool{},
 		usedAxioms: map[string]bool{}, unspecCallees: map[string]bool{}, externUsed: map[string]bool{}, contractsUsed: map[string]bool{}, ghostTypes: map[string]string{},
-		ranges: map[*ssa.Range]*rangeState{}, rangeNames: map[string]*rangeState{}, tablesUsed: map[string]bool{}}
+		ranges: map[*ssa.Range]*rangeState{}, rangeNames: map[string]*rangeState{}, tablesUsed: map[string]bool{}, sliceTables: map[ssa.Value]*sliceTable{}, refHeaps: map[string]bool{}}
 	fx.overflowChecks = true
 	fx.safetyChecks = true
 	if ctr != nil {
@@ -373,6 +373,9 @@ func (v *Verifier) globalInit(fx *fnExec, g *ssa.Global) (SV, bool) {
 // array, after checking over the SSA of the whole package that nothing stores through the global (immutability frame).
 func (v *Verifier) tableInit(fx *fnExec, g *ssa.Global) (SV, bool) {
 	et := g.Type().(*types.Pointer).Elem()
+	if st, isSlice := et.Underlying().(*types.Slice); isSlice {
+		return v.sliceTableInit(fx, g, st)
+	}
 	at, ok := et.Underlying().(*types.Array)
 	if !ok {
 		return nil, false
@@ -498,4 +501,140 @@ func (v *Verifier) knownFor(obl string) *KnownFinding {
 		}
 	}
 	return nil
+}
+
+type sliceTable struct {
+	ref     Term
+	content Term
+	heap    string
+	sort    string
+}
+
+func (v *Verifier) findGlobalInit(g *ssa.Global) (*packages.Package, ast.Expr) {
+	var pkg *packages.Package
+	packages.Visit(v.pkgs, nil, func(p *packages.Package) {
+		if p.Types == g.Pkg.Pkg {
+			pkg = p
+		}
+	})
+	if pkg == nil {
+		return nil, nil
+	}
+	for _, f := range pkg.Syntax {
+		for _, d := range f.Decls {
+			gd, ok := d.(*ast.GenDecl)
+			if !ok || gd.Tok != token.VAR {
+				continue
+			}
+			for _, sp := range gd.Specs {
+				vs := sp.(*ast.ValueSpec)
+				for i, n := range vs.Names {
+					if pkg.TypesInfo.Defs[n] == g.Object() && i < len(vs.Values) {
+						return pkg, vs.Values[i]
+					}
+				}
+			}
+		}
+	}
+	return pkg, nil
+}
+
+// sliceTableInit: `var t = []byte("constant")`, never written and never leaked.
+func (v *Verifier) sliceTableInit(fx *fnExec, g *ssa.Global, st *types.Slice) (SV, bool) {
+	eb, ok := st.Elem().Underlying().(*types.Basic)
+	if !ok || eb.Kind() != types.Uint8 || fx.mode != "int" {
+		return nil, false
+	}
+	pkg, init := v.findGlobalInit(g)
+	call, ok := init.(*ast.CallExpr)
+	if !ok || len(call.Args) != 1 {
+		return nil, false
+	}
+	tv := pkg.TypesInfo.Types[call.Args[0]]
+	if tv.Value == nil || tv.Value.Kind() != constant.String {
+		return nil, false
+	}
+	if !v.sliceGlobalReadOnly(g) {
+		fx.noteUnspec("package-level table " + g.Name() + " may be written or leaked: treated as unknown")
+		return nil, false
+	}
+	str := constant.StringVal(tv.Value)
+	ref := Term{"tbl$" + san(g.Name()), SInt}
+	fx.declare(ref.S, SInt)
+	fx.assumps = append(fx.assumps, fmt.Sprintf("(assert (> %s 0))", ref.S))
+	content := fx.zeroOfSort(arrSort(SInt, SInt))
+	for i := 0; i < len(str); i++ {
+		content = tStore(content, intLit64(int64(i)), intLit64(int64(str[i])))
+	}
+	fx.sliceTables[g] = &sliceTable{ref: ref, content: content, heap: "E.byte", sort: arrSort(SInt, arrSort(SInt, SInt))}
+	fx.tablesUsed[g.Name()] = true
+	n := intLit64(int64(len(str)))
+	return Sl{ref, intLit64(0), n, n, st.Elem()}, true
+}
+
+// sliceGlobalReadOnly: every use of the global is a load whose value is only indexed for reading (or measured).
+func (v *Verifier) sliceGlobalReadOnly(g *ssa.Global) bool {
+	if r, ok := v.immut[g]; ok {
+		return r
+	}
+	res := true
+	var readOnlyValue func(x ssa.Value) bool
+	readOnlyValue = func(x ssa.Value) bool {
+		refs := x.Referrers()
+		if refs == nil {
+			return true
+		}
+		for _, r := range *refs {
+			switch y := r.(type) {
+			case *ssa.DebugRef:
+			case *ssa.IndexAddr:
+				for _, rr := range *y.Referrers() {
+					if u, ok := rr.(*ssa.UnOp); ok && u.Op == token.MUL {
+						continue
+					}
+					if _, ok := rr.(*ssa.DebugRef); ok {
+						continue
+					}
+					return false
+				}
+			case *ssa.Call:
+				if b, ok := y.Call.Value.(*ssa.Builtin); ok && (b.Name() == "len" || b.Name() == "cap") {
+					continue
+				}
+				return false
+			default:
+				return false
+			}
+		}
+		return true
+	}
+	for fn := range ssautil.AllFunctions(v.prog) {
+		if fn.Pkg != g.Pkg {
+			continue
+		}
+		for _, b := range fn.Blocks {
+			for _, in := range b.Instrs {
+				for _, op := range in.Operands(nil) {
+					if *op != ssa.Value(g) {
+						continue
+					}
+					switch y := in.(type) {
+					case *ssa.UnOp:
+						if y.Op != token.MUL || !readOnlyValue(y) {
+							res = false
+						}
+					case *ssa.Store:
+						if fn.Name() != "init" || y.Addr != ssa.Value(g) {
+							res = false
+						}
+					case *ssa.DebugRef:
+					default:
+						res = false
+					}
+				}
+			}
+		}
+	}
+	v.immut[g] = res
+	return res
 }
